@@ -7,12 +7,14 @@ import os
 import tomllib
 from abc import ABC
 from collections.abc import Callable
+from copy import copy
 from enum import Enum
 from pathlib import Path
 from typing import (
     TYPE_CHECKING,
     Annotated,
     Any,
+    ClassVar,
     TypeAlias,
     TypeVar,
     Unpack,
@@ -20,7 +22,7 @@ from typing import (
 )
 
 from pydantic import BeforeValidator, PlainSerializer
-from pydantic.fields import _FromFieldInfoInputs
+from pydantic.fields import FieldInfo, _FromFieldInfoInputs
 from pydantic_core import PydanticUndefined
 
 from gallia.config import Config
@@ -300,6 +302,8 @@ class GalliaBaseModel(BaseCommand, ABC):
     _cli_group: str | None = None
     _config_section: str | None = None
     __config_registry: dict[str, tuple[str, Any]] = {}
+    # The Field() objects as declared in the class itself, see __pydantic_init_subclass__()
+    __gallia_declared_fields__: ClassVar[dict[str, ArgFieldInfo]] = {}
 
     def __init__(self, **data: Any):
         init_kwargs = data.pop("init_kwargs", {})
@@ -325,6 +329,11 @@ class GalliaBaseModel(BaseCommand, ABC):
 
         cls._config_section = config_section
         cls._cli_group = cli_group
+        cls.__gallia_declared_fields__ = {
+            attribute: info
+            for attribute, info in vars(cls).items()
+            if isinstance(info, ArgFieldInfo)
+        }
 
         for attribute, info in vars(cls).items():
             # Attribute specific annotation takes precedence
@@ -359,6 +368,29 @@ class GalliaBaseModel(BaseCommand, ABC):
                         description,
                         info.default,
                     )
+
+    @classmethod
+    def __pydantic_init_subclass__(cls, **kwargs: Any) -> None:
+        super().__pydantic_init_subclass__(**kwargs)
+
+        # pydantic >= 2.12 rebuilds a field declared as `x: Annotated[T, ...] = Field(...)`
+        # (AutoInt, HexBytes, Ranges, Idempotent[...], ...) as a plain FieldInfo and thereby
+        # drops the attributes of ArgFieldInfo/ConfigArgFieldInfo (positional, short, const,
+        # config_section, ...). Restore the declared class and keep everything pydantic
+        # computed for the field.
+        for attribute, declared in vars(cls).get("__gallia_declared_fields__", {}).items():
+            merged = cls.model_fields.get(attribute)
+
+            if merged is None or isinstance(merged, ArgFieldInfo):
+                continue
+
+            restored = copy(declared)
+
+            for slot in FieldInfo.__slots__:
+                if hasattr(merged, slot):
+                    setattr(restored, slot, getattr(merged, slot))
+
+            cls.model_fields[attribute] = restored
 
     @staticmethod
     def registry() -> dict[str, tuple[str, Any]]:
